@@ -44,6 +44,7 @@ func verifSetCwd(dir string)                            {}
 func verifRecordMapRangers(on bool)                     {}
 func verifMapRangers() []string                         { return nil }
 func verifSetNumCPU(n int)                              {}
+func verifGoOrder(perm []int)                           {}
 func verifTraceStart()                                  {}
 func verifTraceEvent(kind string)                       {}
 func verifScheduleCheck(cpus int, stepEncoding int)                       {}
